@@ -208,14 +208,70 @@ func (it *Interp) strLess(a, b *StrV, orEq bool) *Term {
 }
 
 func (it *Interp) strIndex(s *StrV, idx *Term) *Term {
+	if !idx.IsConst() && s.isConc {
+		// index is itself a small ite tree over constants: push the lookup through it
+		n := len(s.conc)
+		if r := it.mapConstLeaves(idx, 0, func(c uint64) *Term {
+			if c >= uint64(n) {
+				return nil
+			}
+			return it.ts.BV(uint64(s.conc[c]), 8)
+		}); r != nil {
+			return it.identityChain(r)
+		}
+	}
+	if !idx.IsConst() && s.isConc && len(s.conc) >= 8 && it.symIndexInRange(idx, len(s.conc)) {
+		// constant table indexed by a symbolic value: ite over the distinct bytes
+		ts := it.ts
+		conds := map[byte]*Term{}
+		count := map[byte]int{}
+		var order []byte
+		for i := 0; i < len(s.conc); i++ {
+			c := s.conc[i]
+			if _, ok := conds[c]; !ok {
+				conds[c] = ts.Bool(false)
+				order = append(order, c)
+			}
+			conds[c] = ts.Or(conds[c], ts.Eq(idx, ts.BV(uint64(i), idx.w)))
+			count[c]++
+		}
+		best := order[0]
+		for _, c := range order {
+			if count[c] > count[best] {
+				best = c
+			}
+		}
+		acc := ts.BV(uint64(best), 8)
+		for _, c := range order {
+			if c != best {
+				acc = ts.Ite(conds[c], ts.BV(uint64(c), 8), acc)
+			}
+		}
+		return it.identityChain(acc)
+	}
 	i := it.concIndex(idx, s.Len(), "string")
 	if s.isConc {
 		return it.ts.BV(uint64(s.conc[i]), 8)
 	}
-	for k := 0; k <= i; k++ {
+	for k := 0; k < i; k++ {
 		if s.b[k].op == OpNum {
-			panic(unsupported("index into string at/after Num segment"))
+			panic(unsupported("index into string after Num segment"))
 		}
+	}
+	if s.b[i].op == OpNum {
+		// first character of a canonical numeral: some digit of its base (over-approximation)
+		base := s.b[i].a
+		if base != 10 && base != 16 {
+			panic(unsupported("index into opaque string"))
+		}
+		d := it.ts.Var(8, "numfirst")
+		ts := it.ts
+		isDig := ts.And(ts.ULe(ts.BV('0', 8), d), ts.ULe(d, ts.BV('9', 8)))
+		if base == 16 {
+			isDig = ts.Or(isDig, ts.And(ts.ULe(ts.BV('a', 8), d), ts.ULe(d, ts.BV('f', 8))))
+		}
+		it.assume(isDig)
+		return d
 	}
 	return s.b[i]
 }
@@ -232,4 +288,117 @@ func fmtInt(t *Term, signed bool) string {
 		return fmt.Sprintf("%d", sext(t.cval, t.w))
 	}
 	return fmt.Sprintf("%d", t.cval)
+}
+
+// mapConstLeaves rewrites f(t) when t is an ite tree whose leaves are all constants (at most 64 leaves).
+func (it *Interp) mapConstLeaves(t *Term, depth int, f func(uint64) *Term) *Term {
+	if depth > 64 {
+		return nil
+	}
+	switch t.op {
+	case OpConst:
+		return f(t.cval)
+	case OpIte:
+		a := it.mapConstLeaves(t.args[1], depth+1, f)
+		if a == nil {
+			return nil
+		}
+		b := it.mapConstLeaves(t.args[2], depth+1, f)
+		if b == nil {
+			return nil
+		}
+		return it.ts.Ite(t.args[0], a, b)
+	case OpZExt:
+		return it.mapConstLeaves(t.args[0], depth+1, f)
+	}
+	return nil
+}
+
+// identityChain recognises ite(e==k1, k1, ite(e==k2, k2, ... d)) covering the whole (narrow) domain of e
+// with every leaf equal to its guard constant, and replaces it by e itself.
+func (it *Interp) identityChain(t *Term) *Term {
+	ts := it.ts
+	var e *Term
+	seen := map[uint64]bool{}
+	cur := t
+	for cur.op == OpIte {
+		c := cur.args[0]
+		if c.op != OpEq {
+			return t
+		}
+		var k, x *Term
+		if c.args[0].IsConst() {
+			k, x = c.args[0], c.args[1]
+		} else if c.args[1].IsConst() {
+			k, x = c.args[1], c.args[0]
+		} else {
+			return t
+		}
+		if e == nil {
+			e = x
+		} else if e != x {
+			return t
+		}
+		leaf := cur.args[1]
+		if !leaf.IsConst() || leaf.cval != k.cval || seen[k.cval] {
+			return t
+		}
+		seen[k.cval] = true
+		cur = cur.args[2]
+	}
+	if e == nil || !cur.IsConst() || seen[cur.cval] {
+		return t
+	}
+	seen[cur.cval] = true
+	w0 := effWidth(e)
+	if w0 > 8 || len(seen) != 1<<uint(w0) {
+		return t
+	}
+	for k := range seen {
+		if k >= 1<<uint(w0) {
+			return t
+		}
+	}
+	if e.w == t.w {
+		return e
+	}
+	if e.w > t.w {
+		return ts.Extract(e, t.w-1, 0)
+	}
+	return ts.ZExt(e, t.w)
+}
+
+// effWidth bounds the number of significant low bits of a term (values are < 2^effWidth).
+func effWidth(e *Term) int {
+	switch e.op {
+	case OpZExt:
+		return effWidth(e.args[0])
+	case OpLShr:
+		if e.args[1].IsConst() && e.args[1].cval < uint64(e.w) {
+			w := effWidth(e.args[0]) - int(e.args[1].cval)
+			if w < 0 {
+				w = 0
+			}
+			return w
+		}
+	case OpBAnd:
+		for i := 0; i < 2; i++ {
+			if c := e.args[i]; c.IsConst() {
+				m := c.cval
+				// mask of the form 2^k-1
+				if m&(m+1) == 0 {
+					k := 0
+					for m != 0 {
+						k++
+						m >>= 1
+					}
+					if o := effWidth(e.args[1-i]); o < k {
+						return o
+					}
+					return k
+				}
+			}
+		}
+	}
+	return e.w
 }
